@@ -8,13 +8,13 @@ CHECKS = {
  "C01": ("bounded exhaustive exploration of every entry point for panics/hangs: all byte strings <=5 (7) over 12 structural symbols, every 1-byte mutation of ~45 seed sentences, complete grammar product (15 M lines), explicit-state BFS of the real AisParser to closure over a 116-letter alphabet incl. invalid numbering and oversized fragments, all histories <=4 (5), 255-fragment chains, unarmor over all strings <=2 (3) and 1-deviation at every length <=96/around 384/512/1000, messages::parse over 64 types x every length 0..132 x single-bit balls; three builds, checked profile (thorough: also plain release)",
          "Every case of the listed finite spaces is executed on the real crate under catch_unwind with overflow checks and debug assertions on, in each of the three feature configurations; a watchdog turns a non-returning case into a violation. The reassembly state machine is explored to closure (its reachable state set is finite for a finite alphabet), so histories of unbounded length over that alphabet are covered.",
          "Exhaustive within the listed spaces only (byte strings beyond two deviations from a valid sentence and longer than 7 arbitrary bytes are outside); allocation failure and stack overflow are not provoked.", "DESIGN.md §3, §4 C01"),
- "C02": ("bounded exhaustive input enumeration vs. reference recogniser + explicit-state exploration: all 256 transmitted checksums x 4 spellings x seeds; every single-byte corruption (delete / replace by 256 values / insert 256 values) at every position of ~45 seeds; field-level edits; (thorough) every pair of positions x 16^2 bytes; bad-checksum letters in every reachable parser state",
+ "C02": ("bounded exhaustive input enumeration vs. reference recogniser + explicit-state exploration: all 256 transmitted checksums x 8 spellings (incl. values > 0xFF, > 8 digits) x seeds; every field slot replaced by every string <=3 (4) over the structural alphabet with the checksum recomputed; every single-byte corruption (delete / replace by 256 values / insert 256 values) at every position of ~45 seeds; field-level edits; (thorough) every pair of positions x 16^2 bytes; bad-checksum letters in every reachable parser state",
          "For every enumerated line the hand-written recogniser (shape + XOR between the delimiter and the first '*') decides whether a checksum error carrying exactly (transmitted, computed) is due, whether acceptance is permitted, and the real parser must agree; the BFS adds 'in any parser state' and checks that a bad-checksum line leaves the parser unchanged.",
-         "Lines with '*' inside a field (zone U1) are not judged for the checksum-equality clause; exhaustive only within the listed spaces.", "DESIGN.md §2.1, §3.1, §4 C02"),
+         "Lines with '*' inside a field (zone U1): only the computed side is judged (the XOR up to the first '*' must equal one of the two candidate transmitted values when the line is accepted); exhaustive only within the listed spaces.", "DESIGN.md §2.1, §3.1, §4 C02"),
  "C03": ("bounded exhaustive input enumeration vs. reference model (all byte strings <=2 (3), all legal strings <=4 (5), 1- and 2-character deviations at every position of every length <=96 and around 384/512/1000; fill 0..5; three builds)",
          "Every string of the stated spaces is enumerated (no sampling) and the real unarmor() output is compared byte for byte with an independent 6-bit unpacking model; the function is position-periodic with period 4 characters, so all strings up to one full period plus one/two deviations at every position of long strings cover every (phase, fill, character) combination.",
          "Exhaustive within the listed spaces only; reference model spec::unarmor is mine; rustc/catch_unwind trusted.", "DESIGN.md §2.3, §3.3, §4 C03"),
- "C04": ("bounded exhaustive payload enumeration vs. table-driven ITU-R M.1371 reference decoder: Hamming ball r<=2 around 4 base patterns of 47 layout variants; all 2^w values x 16 neighbour contexts of every integer/flag/id field (w<=14 quick, <=20 thorough); wide fields: all values within distance 3 of anchors + all 2^18 high/low settings (thorough: complete 2^30 source-MMSI sweep per type); same payloads through the sentence path",
+ "C04": ("bounded exhaustive payload enumeration vs. table-driven ITU-R M.1371 reference decoder: Hamming ball r<=2 around 4 base patterns of 47 layout variants; all 2^w values x 16 neighbour contexts of every integer/flag/id field (w<=14 quick, <=20 thorough); every PAIR of fields x 7x7 boundary values; 256 dense fillings per layout x every single-bit deviation; wide fields: all values within distance 3 of anchors + all 2^18 high/low settings (thorough: complete 2^30 sweeps of MMSI (types 1, 24B), IMO number, destination MMSI); same payloads through the sentence path with every fill count",
          "A field read one bit early, a width off by one, two swapped fields or a missed spare changes the decode of at least one weight-1/weight-2 payload; 'independently of the neighbours' is the neighbour-context product. The reference tables are written from the standard, not from the crate, and every decoded field is compared by name.",
          "The joint space of a whole message (2^168) is outside: payloads differing from every base pattern in >2 bits and in >1 field at once are not enumerated; 30-bit fields other than the source MMSI are swept in 2x18 of their bits.", "DESIGN.md §2.4, §3.4, §4 C04"),
  "C05": ("bounded exhaustive history enumeration (differential oracle) + explicit-state exploration: one decodable payload per layout x every 2-split, every 3-split (<=34 / <=80 chars), every composition of a 12-char payload into 2..9 parts x 7 ids x 5 prior histories x 5 noise patterns x decode; BFS of the real parser to closure with a reference monitor as step oracle; 255-fragment chains",
@@ -23,10 +23,10 @@ CHECKS = {
  "C06": ("explicit-state model checking of the real AisParser: BFS to closure over an 87-letter alphabet (n in 2..5, every k, 5 sequence ids, decodable / undecodable / rejected lines) with state = (parser Debug, reference monitor), run twice; plus every history of length <=4 (6) over a 23-letter core alphabet judged by the C06 statement itself (no monitor); 255-fragment u8-boundary chains",
          "The reachable state set is finite for a finite alphabet, so closure means every finite history over the alphabet is covered; every transition is executed on a real parser re-driven along the shortest witness history. The history predicate shares no code with the monitor and validates it on every history up to the depth bound.",
          "Letters outside the alphabet (other ids, n>5 except the directed 255-chain) are not explored; the monitor is mine.", "DESIGN.md §2.2, §3.2, §4 C06"),
- "C07": ("bounded exhaustive input enumeration vs. reference field extractor: complete grammar product (15 M lines; thorough 100+ M), all 65536 talker byte pairs, all report-type triples over a 27-byte alphabet (thorough: all 2^24), every accepted single-byte mutant of ~45 seeds, all 256 first payload bytes; decode on/off differential",
+ "C07": ("bounded exhaustive input enumeration vs. reference field extractor: complete grammar product (15 M lines; thorough 100+ M), every field slot replaced by every short string over the structural alphabet, explicit-state BFS of the real parser (payload of a completed group = concatenation), all 65536 talker byte pairs, all report-type triples over a 27-byte alphabet (thorough: all 2^24), every accepted single-byte mutant of ~45 seeds, all 256 first payload bytes; decode on/off differential",
          "Every accepted line's talker, report type, counts, id, channel, fill and raw payload are compared with an independent scanner; each accepted line is also parsed with the opposite decode flag on a fresh parser and the sentences must be identical up to the message.",
          "Only lines within the listed spaces; the decoded message itself is judged by C04/C09-C16.", "DESIGN.md §2.1, §3.1, §4 C07"),
- "C08": ("bounded exhaustive input enumeration vs. reference recogniser (language equivalence on the enumerated set): every single-byte delete/replace/insert mutation of ~45 seeds, field-level edits (empty/duplicate/drop/swap) with fresh and stale checksum, complete grammar product, all strings <=5 (7) over 12 structural symbols, all checksum spellings; (thorough) two-byte mutations",
+ "C08": ("bounded exhaustive input enumeration vs. reference recogniser (language equivalence on the enumerated set): every single-byte delete/replace/insert mutation of ~45 seeds, field-level edits (empty/duplicate/drop/swap) with fresh and stale checksum, complete grammar product, all strings <=5 (7) over 12 structural symbols, every field slot x every string <=3 (4), all checksum spellings; (thorough) two-byte mutations",
          "Accepted <=> the hand-written recogniser of the C08 grammar accepts (star-free lines); a malformed line must give a non-checksum error; std and no-allocator builds.",
          "Zone U1 (a '*' inside a field) is not judged; outside the enumerated mutation radius nothing is claimed.", "DESIGN.md §2.1, §3.1, §4 C08"),
  "C09": ("exhaustive enumeration of all 64 type values x every payload length 0..132 (+255..1024) bytes x 5 contents x part selectors, and single-bit balls at every length 0..64 bytes",
@@ -59,10 +59,10 @@ CHECKS = {
  "C18": ("differential bounded exhaustive enumeration across the three builds: the line, reassembly, unarmor and message spaces are run in std, alloc and no-allocator builds and per-4096-case digests of the canonical outcomes are compared; inputs beyond a documented capacity are tokenised in all builds and must be Err (or an untruncated Ok) without an allocator; explicit-state exploration with the capacity-aware monitor in each build",
          "std == alloc == none on acceptance, error category and every sentence and message field for every enumerated case; on a digest mismatch the chunk is re-run in dump mode in both builds and the first differing case is reported.",
          "Error message texts are not compared (String vs &'static str); equality is claimed for the enumerated spaces only.", "DESIGN.md §4 C18"),
- "C19": ("exhaustive enumeration of all 256 first payload bytes (all 64 armoring characters) x 4 sentence shapes x 3 payload lengths x decode",
-         "sentence.message_type must equal the 6-bit value of the first payload character, and the decoded message's own type when one is decoded.",
+ "C19": ("exhaustive enumeration of all 256 first payload bytes (all 64 armoring characters) x 4 sentence shapes x 3 payload lengths x decode, and on the continuation and completing fragments of 2- and 3-fragment groups",
+         "sentence.message_type must equal the 6-bit value of the first payload character, and the decoded message's own type when one is decoded; a well-formed sentence must not be rejected because of its first payload character.",
          "Known finding: the crate reports first_char >> 2 (recognised by its exact signature; 4 pinned tests assert it).", "DESIGN.md §4 C19, §6 D10"),
- "C20": ("bounded exhaustive stream enumeration on the real binary: every sequence of <=3 (4) lines over 13 line kinds x final newline present/absent, one fresh process each through a pipe, plus long cyclic streams (thorough: 200 000 lines); expectation = the library itself in-process",
+ "C20": ("bounded exhaustive stream enumeration on the real binary: every sequence of <=3 (4) lines over 13 line kinds x final newline present/absent, every byte string <=4 (5) over {LF,CR,!,A,comma,0x80,NUL} as the whole input, lines of 10^3..10^6 bytes, one fresh process each through a pipe, plus long cyclic streams (thorough: 200 000 lines); expectation = the library itself in-process",
          "Exit status 0, number and order of stdout records each containing the expected message Debug, number of stderr records, nothing for incomplete fragments, no timeout.",
          "Line kinds, not arbitrary bytes; the echo format of the offending line is not pinned.", "DESIGN.md §2.5, §3.5, §4 C20"),
 }
